@@ -156,6 +156,7 @@ struct Driver {
   }
   static long idOf(const TC4 &) { return -1; }
   static long idOf(const TC2 &) { return -1; }
+  static long idOf(const POD4 &) { return -1; }
 
   // ---- element event counters
   struct Ev {
@@ -975,6 +976,7 @@ using AmcTC4 = amc::BasicAllocatorWrapper<TC4, LedgerBasic>;
 using AmcTC2 = amc::BasicAllocatorWrapper<TC2, LedgerBasic>;
 using AmcNTR = amc::BasicAllocatorWrapper<El<0>, LedgerBasic>;
 using AmcTR = amc::BasicAllocatorWrapper<El<1>, LedgerBasic>;
+using AmcPOD = amc::BasicAllocatorWrapper<POD4, LedgerBasic>;
 
 struct Entry {
   const char *name;
@@ -988,6 +990,7 @@ static const Entry kTable[] = {
 #if GROUP == 0
     {"vec.u32.TC4.amc", &runConfig<CfgDyn<TC4, AmcTC4, uint32_t, 0> >},
     {"vec.u32.NTR.led", &runConfig<CfgDyn<El<0>, LedgerAlloc<El<0>, false>, uint32_t, 0> >},
+    {"vec.u16.POD.amc", &runConfig<CfgDyn<POD4, AmcPOD, uint16_t, 0> >},
 #elif GROUP == 1
     {"vec.u8.TR.ledr", &runConfig<CfgDyn<El<1>, LedgerAlloc<El<1>, true>, uint8_t, 0> >},
     {"vec.s32.TR.amc", &runConfig<CfgDyn<El<1>, AmcTR, int32_t, 0> >},
@@ -1006,6 +1009,8 @@ static const Entry kTable[] = {
 #elif GROUP == 6
     {"FCV5.u8.NTR", &runConfig<CfgFCV<El<0>, 5> >},
     {"FCV5.u8.TR", &runConfig<CfgFCV<El<1>, 5> >},
+    {"FCV6.u8.POD", &runConfig<CfgFCV<POD4, 6> >},
+    {"SV3.s32.POD.led", &runConfig<CfgDyn<POD4, LedgerAlloc<POD4, false>, int32_t, 3> >},
 #elif GROUP == 7
     {"FCV8.u8.TC4", &runConfig<CfgFCV<TC4, 8> >},
     {"FCV3.s32.NTR", &runConfig<CfgFCVS<El<0>, 3, int32_t> >},
